@@ -791,6 +791,25 @@ func (ts *Terms) bitop(op bitop, a, b *Term) *Term {
 		}
 		return a
 	}
+	if op == bXor {
+		// (x ^ y) ^ y = x
+		if a.op == OpBvXor {
+			if a.a[0] == b {
+				return a.a[1]
+			}
+			if a.a[1] == b {
+				return a.a[0]
+			}
+		}
+		if b.op == OpBvXor {
+			if b.a[0] == a {
+				return b.a[1]
+			}
+			if b.a[1] == a {
+				return b.a[0]
+			}
+		}
+	}
 	for _, p := range [][2]*Term{{a, b}, {b, a}} {
 		c, x := p[0], p[1]
 		if c.op == OpConst && c.w <= 64 {
